@@ -375,3 +375,81 @@ Theorem texts_example :
   check_texts [([allegro], [allegro]); ([allegro_l], [allegro])] = false.
 Proof. exact texts_example_lemma. Qed.
 Print Assumptions texts_example.
+
+From PV Require Import Model.C03_Tie Proofs.C03_Tie.
+(* ---- tie links (Model/C03_Tie.v; round j extension): <tie type="stop"/"start"> written from tie_prev / tie_next,
+   paired by the importer under ongoing[("tie", midi pitch)] over the whole part in document order ---- *)
+
+(* refinement of the importer's dictionary, for EVERY part (no hypothesis): after any prefix of the written part the
+   entry ongoing[("tie", k)] is the most recent tied note of pitch k if that note has a tie_next, and absent otherwise *)
+Theorem tie_state_is_last_tied_note : forall a k,
+  ongoing (import_ties (export_ties a) tst0) k = open_tie a k.
+Proof. exact tie_state_char. Qed.
+Print Assumptions tie_state_is_last_tied_note.
+
+(* the clause "tie links" under the quantifier's "concurrently tied notes of one part have distinct pitches (MusicXML
+   pairs ties by pitch)", stated on the score alone (ties_by_pitch: the most recent tied note of the same pitch before
+   a note with a tie_prev, in document order, is that tie_prev and has a tie_next): for every part -- chains over any
+   number of notes and barlines, ties changing voice, any number of pitches tied at once, untied notes of the same
+   pitch in between, rests and unpitched notes -- the (tie_prev, note) links the importer builds from what the exporter
+   writes are exactly the score's, in document order *)
+Theorem tie_links_roundtrip : forall l, ties_by_pitch l ->
+  links (import_ties (export_ties l) tst0) = prev_links l.
+Proof. exact tie_links_roundtrip_l. Qed.
+Print Assumptions tie_links_roundtrip.
+
+(* the hypothesis is EXACT: a part outside ties_by_pitch does not get its links back, so the quantifier's exclusion
+   ("concurrently tied notes of one part have distinct pitches") is neither too weak nor stronger than needed *)
+Theorem tie_links_roundtrip_iff : forall l,
+  links (import_ties (export_ties l) tst0) = prev_links l <-> ties_by_pitch l.
+Proof. exact tie_links_roundtrip_iff_l. Qed.
+Print Assumptions tie_links_roundtrip_iff.
+
+(* with symmetric links (n.tie_next = m iff m.tie_prev = n) the loaded tie_next links are the score's as well *)
+Theorem tie_links_both_directions : forall l, ties_by_pitch l -> ties_symmetric l ->
+  forall x, In x (links (import_ties (export_ties l) tst0)) <-> In x (next_links l).
+Proof. exact tie_links_both_l. Qed.
+Print Assumptions tie_links_both_directions.
+
+(* the booleans the correspondence counts imply the hypotheses; the checker it evaluates holds on the model's output *)
+Theorem tie_hypotheses_decided : forall l,
+  (ties_by_pitch_b l = true -> ties_by_pitch l) /\ (ties_symmetric_b l = true -> ties_symmetric l).
+Proof. exact (fun l => conj (ties_by_pitch_b_sound l) (ties_symmetric_b_sound l)). Qed.
+Print Assumptions tie_hypotheses_decided.
+
+Theorem model_passes_check_ties : forall l nx,
+  ties_by_pitch l -> pr_sort nx = pr_sort (prev_links l) ->
+  check_ties (l, export_ties l, prev_links l, nx) = true.
+Proof. exact model_passes_check_ties_l. Qed.
+Print Assumptions model_passes_check_ties.
+
+(* non-vacuity: a chain 0 -> 3 -> 6 of pitch 60 whose middle note is written in another voice, an untied 60 in between,
+   a tie of pitch 64 open at the same time, a rest *)
+Theorem tie_example :
+  ties_by_pitch ex_part /\ ties_symmetric ex_part /\
+  links (import_ties (export_ties ex_part) tst0) = [(0, 3); (1, 4); (3, 6)] /\
+  prev_links ex_part = [(0, 3); (1, 4); (3, 6)].
+Proof. exact tie_example_l. Qed.
+Print Assumptions tie_example.
+
+(* boundary of the quantifier: two ties of ONE pitch open together are outside the hypothesis and ARE mis-paired *)
+Theorem tie_concurrent_same_pitch_lost :
+  ties_by_pitch_b ex_concurrent = false /\ ~ ties_by_pitch ex_concurrent /\
+  links (import_ties (export_ties ex_concurrent) tst0) = [(1, 2)] /\
+  prev_links ex_concurrent = [(0, 2); (1, 3)].
+Proof. exact tie_concurrent_same_pitch_lost_l. Qed.
+Print Assumptions tie_concurrent_same_pitch_lost.
+
+(* the statement discriminates: key = (pitch, voice) loses the tie that changes voice (seed b_tie_key_per_voice);
+   start handled before stop ties the middle note of a chain to itself *)
+Theorem tie_key_per_voice_refuted :
+  ties_by_pitch ex_part /\
+  links (import_ties_with key_voice (export_ties ex_part) tst0) <> prev_links ex_part.
+Proof. exact tie_key_per_voice_refuted_l. Qed.
+Print Assumptions tie_key_per_voice_refuted.
+
+Theorem tie_start_first_refuted :
+  ties_by_pitch ex_part /\
+  links (import_ties_start_first (export_ties ex_part) tst0) <> prev_links ex_part.
+Proof. exact tie_start_first_refuted_l. Qed.
+Print Assumptions tie_start_first_refuted.
